@@ -321,6 +321,62 @@ impl Program {
         self.render_spans(t, cfg, f).0
     }
 
+    /// Render with white space exactly at the gaps where `mask` says so (gap i = between token i and i+1;
+    /// the last entry is the end of the text, index len = before the first token). Where `mask` is None the
+    /// gaps are chosen here. Every chosen gap gets a freshly generated non-empty run. Returns text and mask.
+    pub fn render_masked(&self, t: &mut Tape, cfg: &TriviaCfg, f: &mut Feats, mask: Option<&[bool]>, plain_share: usize) -> (String, Vec<bool>) {
+        let n = self.toks.len();
+        let mut used = vec![false; n + 1];
+        let mut out = String::new();
+        if n == 0 {
+            return (out, used);
+        }
+        let lead = match mask {
+            Some(m) => m[n],
+            None => t.chance(1, 4),
+        };
+        if lead {
+            used[n] = true;
+            let nf = self.toks[0].text.chars().next();
+            out.push_str(&gen_trivia(t, cfg, None, nf, false, f));
+        }
+        for i in 0..n {
+            let tok = &self.toks[i];
+            out.push_str(&tok.text);
+            let nxt = self.toks.get(i + 1);
+            let num_part = nxt.map(|x| x.class == Class::NumPart).unwrap_or(false);
+            let must = match nxt {
+                Some(nx) => !num_part && needs_space(tok, nx),
+                None => tok.class == Class::EscIdent,
+            };
+            let want = match mask {
+                Some(m) => m[i],
+                None => must || t.chance(1, if num_part { 3 } else { 2 }),
+            };
+            if !want {
+                continue;
+            }
+            used[i] = true;
+            if num_part {
+                out.push_str(t.pick_str(&[" ", "\t", "  "]));
+                continue;
+            }
+            let pl = tok.text.chars().next_back();
+            let nf = nxt.and_then(|x| x.text.chars().next());
+            if t.chance(plain_share, 4) {
+                let s = *t.pick(&[" ", " ", "\n", "  ", "\t"]);
+                out.push_str(s);
+            } else {
+                let mut cfg2 = *cfg;
+                if tok.class == Class::EscIdent || tok.class == Class::Str {
+                    cfg2.define_directives = false;
+                }
+                out.push_str(&gen_trivia(t, &cfg2, pl, nf, tok.class == Class::EscIdent, f));
+            }
+        }
+        (out, used)
+    }
+
     /// Render; also returns the byte offset of every token.
     pub fn render_spans(&self, t: &mut Tape, cfg: &TriviaCfg, f: &mut Feats) -> (String, Vec<usize>) {
         let mut out = String::new();
